@@ -26,8 +26,15 @@ if [ -d tools/gofacts ]; then
     fi
   fi
 fi
-if [ ! -f coq/LowerGen.v ]; then
-  ( cd tools && go run gen_lower.go > ../coq/LowerGen.v ) || { echo "BUILD: gen_lower failed"; status=3; }
+# unicode.ToLower table of the Go toolchain in use (regenerated when the toolchain changes)
+gover=$(go version 2>/dev/null)
+if [ ! -f coq/LowerGen.v ] || [ "$(cat work/.gover 2>/dev/null)" != "$gover" ]; then
+  if ( cd tools && go run gen_lower.go > ../work/LowerGen.v.new ) 2>work/gen_lower.err; then
+    cmp -s work/LowerGen.v.new coq/LowerGen.v || cp work/LowerGen.v.new coq/LowerGen.v
+    echo "$gover" > work/.gover
+  else
+    echo "BUILD: gen_lower failed"; status=3
+  fi
 fi
 
 # 2. Coq: full .vo build (never -vos); -k so that the executable model still
